@@ -36,6 +36,8 @@ def toBytes (s : Src) : ByteArray := s.bytes ++ zeroBytes s.zeros
 def read (s : Src) (off n : Nat) : ByteArray :=
   if off + n ≤ s.bytes.size then s.bytes.extract off (off + n)
   else s.bytes.extract off (off + n) ++ zeros128.extract 0 (off + n - max off s.bytes.size)
+/-- all bytes of a sequence of `update` arguments, in order (specification view) -/
+def concat (chunks : List Src) : ByteArray := chunks.foldl (fun acc c => acc ++ c.toBytes) ByteArray.empty
 end Src
 
 instance : Coe ByteArray Src := ⟨fun b => { bytes := b }⟩
